@@ -377,7 +377,11 @@ fn run_scenario(sc: &Value, idx: usize, bin: &Path, scratch: &Path, local: bool)
     let relevant = |v: &[Value]| -> Vec<Value> { v.iter().filter(|c| matches!(c["cmd"].as_str().unwrap_or(""), "pack-build" | "run-detached" | "rm" | "rmi" | "volume-rm")).cloned().collect() };
     let want: Vec<Value> = relevant(sc["trace"].as_array().unwrap());
     let cmds_rel = relevant(&cmds);
-    if cmds_rel != want && !packaging_failed {
+    // (compared as multisets: which commands, how often - the order constraints that matter, e.g. no
+    // use after removal, no image removed while a container lives, are the resource automaton's,
+    // and the property does not prescribe an order between the image and the volumes)
+    let as_bag = |v: &[Value]| { let mut b: Vec<String> = v.iter().map(|c| c.to_string()).collect(); b.sort(); b };
+    if as_bag(&cmds_rel) != as_bag(&want) && !packaging_failed {
         let f = |v: &[Value]| v.iter().map(|c| format!("{} {}", c["cmd"].as_str().unwrap_or("?"), c["arg"].as_str().unwrap_or("?"))).collect::<Vec<_>>().join(", ");
         p16.push(format!("resource commands [{}], the specification predicts [{}]; stderr of the test process: {}", f(&cmds_rel), f(&want), stderr.lines().filter(|l| !l.trim().is_empty()).rev().take(5).collect::<Vec<_>>().join(" | ")));
     }
